@@ -72,8 +72,18 @@ def decide(prop, tier, seed=0, use_cache=True, out=sys.stdout):
     trusted = set()
     fn_list = []
     # ---------------------------------------------------------------- engine V
+    # the units (and their canary variants) are independent single-file Verus runs: four at a time
+    from concurrent.futures import ThreadPoolExecutor
+    pre = {}
+    with ThreadPoolExecutor(max_workers=int(os.environ.get("VERIF_VERUS_JOBS", "4"))) as pool:
+        futs = {}
+        for unit in pp.get("verus", []):
+            futs[(unit, False)] = pool.submit(verus_run.run_unit, unit, use_cache=use_cache, log_air=True)
+            futs[(unit, True)] = pool.submit(verus_run.run_unit, unit, canary=True, use_cache=use_cache)
+        for k, f in futs.items():
+            pre[k] = f.result()
     for unit in pp.get("verus", []):
-        r = verus_run.run_unit(unit, use_cache=use_cache, log_air=True)
+        r = pre[(unit, False)]
         mine = [f for f in r["functions"] if prop in f["tags"]]
         ev = {"unit": unit, "status": r["status"], "verus_queries_verified": r.get("verified"), "verus_queries_failed": r.get("errors"),
               "air_asserts": r.get("obligations"), "time_ms": r.get("time_ms"), "cached": r.get("cached", False),
@@ -102,7 +112,7 @@ def decide(prop, tier, seed=0, use_cache=True, out=sys.stdout):
         # vacuity guard on every run: a second generated file carries `assert(false)` at the start of every contracted
         # function and loop body; each of them must FAIL (contradictory requires / invariants would make them pass)
         if r["status"] in ("proved", "failed"):
-            c = verus_run.run_unit(unit, canary=True, use_cache=use_cache)
+            c = pre[(unit, True)]
             ev["canary_sites"] = c.get("canary_sites"); ev["canary_missed"] = c.get("canary_missed")
             if c.get("canary_missed"):
                 undecided_units.append((unit, "vacuity-canary", ["canary assert(false) verified (contradictory requires/invariant?) at: %s" % c["canary_missed"]], None))
